@@ -337,13 +337,23 @@ func (w *World) monitorHostile() {
 
 // stepDeadline is a StepCheck: a read parked in the middle of a packet has a
 // deadline (PauseTimeout is configured in every scenario).
-func stepDeadline(w *World) {
+func stepDeadline(w *World) { stepDeadlineAs(w, "C13") }
+
+// stepDeadlinesC07 is the same check where the consequence belongs to C07 as
+// well: a writer that can stall for ever keeps the write token, and the
+// acknowledgement the read routine owes is never written on any connection.
+func stepDeadlinesC07(w *World) {
+	stepDeadlineAs(w, "C13")
+	stepDeadlineAs(w, "C07")
+}
+
+func stepDeadlineAs(w *World, prop string) {
 	w.sch.mu.Lock()
 	defer w.sch.mu.Unlock()
 	for _, th := range w.sch.threads {
 		if !th.done && th.parked && th.kind == kindEnv && th.env.op == "write" && th.gen == w.sch.gen {
 			if c := th.env.conn; c.wdl.IsZero() && !c.closed {
-				w.Violate("C13", "write-without-deadline", "c%d: %s writes %d bytes without a write deadline although PauseTimeout is configured", c.id, th.name, len(th.env.buf))
+				w.Violate(prop, "write-without-deadline", "c%d: %s writes %d bytes without a write deadline although PauseTimeout is configured", c.id, th.name, len(th.env.buf))
 			}
 		}
 		if th.done || !th.parked || th.kind != kindEnv || th.env.op != "read" || th.gen != w.sch.gen {
@@ -369,7 +379,7 @@ func stepDeadline(w *World) {
 			pos += n
 		}
 		if mid && c.rdl.IsZero() {
-			w.Violate("C13", "mid-packet-read-without-deadline", "c%d: read parked after %d bytes, inside a packet, without a read deadline", c.id, c.nRead)
+			w.Violate(prop, "mid-packet-read-without-deadline", "c%d: read parked after %d bytes, inside a packet, without a read deadline", c.id, c.nRead)
 		}
 	}
 }
